@@ -2,7 +2,7 @@
 from harness.props import sysrun
 from harness.sched import monitors as M
 
-PROP_FILE = 'C04'
+PROP_FILE = ['C04', 'C02Legacy', 'C19']
 
 
 def mons():
@@ -42,5 +42,14 @@ def run(ctx):
                           'overrun (livelock); distinct = distinct event trace')
 
 
+    # the other front-ends: the legacy downloader's IO thread / queue protocol (a call that does not
+    # return is reported) and the process pool (every download becomes done under faults and cancels)
+    from harness.props import legacy, c19
+    if len(ctx.violations) < 5:
+        legacy.check_c02(ctx)
+    if len(ctx.violations) < 5:
+        c19.sub_check(ctx, 'liveness')
+
+
 def replay(ctx, data):
-    return sysrun.replay_spec(ctx, data, mons())
+    return sysrun.replay_any(ctx, data, mons())
